@@ -159,7 +159,7 @@ def task(payload):
 DRAW = {1: {'Fracture Separation': ['10', '100'], 'Number of Fractures': ['4', '60']},
         2: {'Reservoir Volume': ['5e7', '1e9'], 'Reservoir Porosity': ['0.001', '0.3']},
         3: {'Drawdown Parameter': ['0.00002', '0.0002', '0.2']},
-        4: {'Drawdown Parameter': ['0', '0.005', '0.1', '0.2']}}
+        4: {'Drawdown Parameter': ['0', '0.005', '0.04', '0.1', '0.2']}}
 
 
 def plan(tier, seed):
@@ -196,13 +196,14 @@ def plan(tier, seed):
     for i in range(0, len(cases), B):
         P.append({'kind': 'res', 'cases': cases[i:i + B]})
     # end to end
-    shapes = [(5, 3, 2), (3, 1, 1), (2, 4, 3)] if tier == 'quick' else [(5, 3, 2), (3, 1, 1), (2, 4, 3), (30, 1, 1), (10, 4, 1), (1, 2, 1)]
+    # (12, 2, 1): long enough for drawdown parameter x lifetime > 1 (model 4 then cools below the injection temperature)
+    shapes = [(5, 3, 2), (3, 1, 1), (2, 4, 3), (12, 2, 1)] if tier == 'quick' else [(5, 3, 2), (3, 1, 1), (2, 4, 3), (12, 2, 1), (30, 1, 1), (10, 4, 1), (1, 2, 1)]
     for r in F.RES_MODELS:
         for pair in ((1, 1), (2, 9)) if tier == 'quick' else ((1, 1), (2, 9), (1, 3), (2, 6), (41, 2)):
             for s in shapes:
                 fam = {'econ': 1, 'enduse': pair[0], 'plant': pair[1], 'res': r, 'shape': list(s)}
                 P.append({'fam': fam, 'changes': {}, 'base': True})
-                for md in ('0.5', '0.1', '0.02', '0.005'):
+                for md in ('1', '0.5', '0.1', '0.02', '0.005'):
                     for ramey in ({}, {'Ramey Production Wellbore Model': '0', 'Production Wellbore Temperature Drop': '5'}):
                         ch = {'Maximum Drawdown': md}
                         ch.update(ramey)
@@ -226,7 +227,7 @@ def run(tier, seed, budget=None):
         rule=('reservoir level: complete product of 1..3-segment layouts (gradients {1.01,30,50,120,500} C/km, thicknesses '
               '{0.01,0.5,2,99} km) x depth {0.1,1,3,7,15} km x Tmax {50,150,400,600} x Tsurf {-50,15,50} (quick trims the 3-segment '
               'Tsurf/Tmax axes), 4-segment layouts within 2 deviations of a base; end to end: reservoir models 1-4 x plant x shapes x '
-              'maximum drawdown {1,0.5,0.1,0.02,0.005} x Ramey on/off x drawdown-parameter alphabets. Non-trivial = multi-segment or '
+              'maximum drawdown {1 (given),0.5,0.1,0.02,0.005} x Ramey on/off x drawdown-parameter alphabets. Non-trivial = multi-segment or '
               'capped (reservoir level) / produced temperature varies (end to end); redrill_positive counter reports how many runs redrilled'),
         assumptions=['magnitudes that trigger the unit heuristics (gradient <= 1, thickness >= 100) are outside the alphabet',
                      'monotonicity/upper-bound clauses are evaluated only where bottom-hole temperature >= injection temperature',
